@@ -306,6 +306,9 @@ func engineConcSearch(ctx *Ctx) {
 			})
 		}
 		c11LookAlikeOverlap(ctx, r, db, cdb, words, cs)
+		if dbName != "shipped" {
+			c11MixedOptions(ctx, r, open, words, cs)
+		}
 		os.RemoveAll(embDir)
 		ctx.R.Path("loaded-by:"+how, 1)
 		ctx.R.Path("goroutine-rounds", 1)
@@ -338,6 +341,122 @@ func engineConcSearch(ctx *Ctx) {
 		}
 	}
 	c11MonitorHammer(ctx, r)
+}
+
+// c11MixedOptions: goroutines that do NOT share one option set. Some ask plainly for a word; others ask for the same word with a
+// boost on it under filters that leave no candidate (pipeline-only, a platform nobody declares), misspell it, or boost it
+// ordinarily. Whatever a search leaves behind for the next one to pick up (a pooled working set, a table of boosts) shows as an
+// answer that differs from the one the same request gets as the only search on an instance of its own.
+func c11MixedOptions(ctx *Ctx, r *rand.Rand, open func() *database.Database, words []string, cs0 map[string]interface{}) {
+	if len(words) < 3 {
+		return
+	}
+	type qo struct {
+		q    string
+		o    database.SearchOptions
+		kind string
+	}
+	var pool []qo
+	for i := 0; i < 3; i++ {
+		w := vlib.Word(r, words)
+		w2 := vlib.Word(r, words)
+		f := []float64{2, 3, 7.5}[r.Intn(3)]
+		nlp := r.Intn(2) == 0
+		plain := database.SearchOptions{Limit: 10, UseNLP: nlp, UseFuzzy: true, AllPlatforms: true}
+		pool = append(pool, qo{w, plain, "plain"}, qo{w + " " + w2, plain, "plain"})
+		b := plain
+		b.ContextBoosts = map[string]float64{w: f, w2: f + 1}
+		pool = append(pool, qo{w, b, "boosted"})
+		po := b
+		po.PipelineOnly = true
+		pool = append(pool, qo{w, po, "boosted+pipeline-only"}, qo{w + " " + w2, po, "boosted+pipeline-only"})
+		pf := b
+		pf.AllPlatforms, pf.Platforms, pf.NoCrossPlatform = false, []string{"plan9"}, true
+		pool = append(pool, qo{w + " " + w2, pf, "boosted+foreign-platform"})
+		typo := vlib.GenQuery(r, []string{w}, 1, 2)
+		bt := plain
+		bt.ContextBoosts = map[string]float64{w: f, typo: f, strings.ToLower(typo): f}
+		pool = append(pool, qo{typo + " " + w, bt, "boosted+misspelt"}, qo{typo, bt, "boosted+misspelt"})
+	}
+	cs := map[string]interface{}{"round": cs0, "requests": len(pool), "what": "goroutines with different option sets on one instance"}
+	ctx.R.Begin(cs)
+	ctx.R.Eval(1)
+	ctx.R.Guard("C11", "mixed option sets", cs, func() {
+		// alone: every request as the only search on an instance of its own (twice: stable-reference rule)
+		type refT struct {
+			refs   []vlib.Ranked
+			stable bool
+		}
+		alone := make([]refT, len(pool))
+		for i, m := range pool {
+			var refs []vlib.Ranked
+			for k := 0; k < 2; k++ {
+				fresh := open()
+				refs = append(refs, vlib.Canon(fresh.Commands, fresh.SearchUniversal(m.q, m.o)))
+			}
+			alone[i] = refT{refs, vlib.Exact(refs[0], refs[1])}
+		}
+		db := open()
+		G := 8
+		K := 40
+		type obs struct {
+			qi  int
+			ans vlib.Ranked
+		}
+		results := make([][]obs, G)
+		var wg sync.WaitGroup
+		start := make(chan struct{})
+		for g := 0; g < G; g++ {
+			wg.Add(1)
+			go func(g int) {
+				defer wg.Done()
+				lr := rand.New(rand.NewSource(int64(g)*104723 + ctx.Seed))
+				<-start
+				defer func() {
+					if e := recover(); e != nil {
+						ctx.R.Violate(vlib.Violation{Property: "C11", Clause: "panic", Path: "concurrent search/mixed options", Detail: fmt.Sprintf("panic in goroutine %d: %v", g, e), Witness: cs})
+					}
+				}()
+				for k := 0; k < K; k++ {
+					// even goroutines ask plainly, odd ones ask the filtered / boosted / misspelt requests
+					var qi int
+					for {
+						qi = lr.Intn(len(pool))
+						if (pool[qi].kind == "plain") == (g%2 == 0) {
+							break
+						}
+					}
+					results[g] = append(results[g], obs{qi, vlib.Canon(db.Commands, db.SearchUniversal(pool[qi].q, pool[qi].o))})
+					if k%8 == 0 {
+						c11Jitter(lr)
+					}
+				}
+			}(g)
+		}
+		close(start)
+		if !c11WaitOrDeadlock(ctx, &wg, cs, "concurrent searches with different option sets") {
+			return
+		}
+		for g := range results {
+			for _, o := range results[g] {
+				m := pool[o.qi]
+				ctx.R.Path("mixed-option-answers-compared", 1)
+				if len(alone[o.qi].refs[0]) == 0 {
+					ctx.R.Path("mixed-option-requests-without-an-answer", 1)
+				}
+				v, why := vlib.CompareToRef(alone[o.qi].refs, alone[o.qi].stable, o.ans, vlib.LimitInForce(m.o.Limit))
+				switch v {
+				case "violated":
+					ctx.R.Violate(vlib.Violation{Property: "C11", Clause: "not-as-if-alone", Path: "SearchUniversal/mixed-options/" + m.kind,
+						Detail:  fmt.Sprintf("the answer for %q (%s) beside searches with other options differs from its answer as the only search on an instance of its own: %s", m.q, m.kind, why),
+						Witness: map[string]interface{}{"case": cs, "opts": vlib.OptsJ(m.o), "alone": alone[o.qi].refs[0], "concurrent": o.ans}})
+				case "inconclusive":
+					ctx.R.Inconcl("alone reference unstable")
+				}
+			}
+		}
+		ctx.R.Path("mixed-option-rounds", 1)
+	})
 }
 
 // c11LookAlikeOverlap: requests that are different but read alike once their options are written down without quotes (the
